@@ -322,6 +322,11 @@ type Case struct {
 	StyleA string   `json:"text_style_a,omitempty"`
 	StyleB string   `json:"text_style_b,omitempty"`
 	Texts  []string `json:"texts,omitempty"`
+	// garbage-sequence family: position i of Pattern is the i-th instant of Window (Desc: in decreasing order)
+	// written in StyleA (V) or the next entry of the garbage alphabet starting at Rot (G)
+	Pattern string `json:"pattern,omitempty"`
+	Rot     int    `json:"garbage_alphabet_rotation,omitempty"`
+	Desc    bool   `json:"instants_in_decreasing_order,omitempty"`
 }
 
 type reporter func(sig, detail string)
@@ -609,7 +614,7 @@ func worker(w *runner.W) {
 	}
 	perInstant := int64(len(namedFormats) + 1 + len(bucketNames) + len(attrs) + 12)
 
-	for _, z := range zonesFor(w.Quick()) {
+	for zoneNo, z := range zonesFor(w.Quick()) {
 		setGlobals()
 		for _, p := range allProgs(buildProgs(z)) {
 			if p.cpanic != "" || p.cerr != "" {
@@ -684,6 +689,33 @@ func worker(w *runner.W) {
 				}
 			}
 			w.Add("parse_family_windows", 1)
+		}
+		// garbage-sequence family: entries that are not dates around valid dates of one layout, see garbageseq.go
+		gcfgs := garbageSeqCfgs(z)
+		for _, win := range garbageSeqWindows(z, zoneNo, ins, w.Quick()) {
+			for _, pc := range gcfgs {
+				caseNo++
+				if !w.Owns(caseNo) {
+					continue
+				}
+				if w.Expired() {
+					return
+				}
+				setGlobals()
+				pc, win := pc, win
+				runGarbageSeqCfg(z, pc, win, !w.Quick(), rep, func(pattern string, rot int, desc bool) {
+					cur = func() Case { return garbageSeqCase(z, pc, win, pattern, rot, desc) }
+				}, func(nt bool, digest string, evals int64) {
+					w.Eval(nt)
+					w.Add("garbage_sequence_cases", 1)
+					w.Add("garbage_sequence_template_evaluations", evals)
+					w.Outcome("garbage-sequence", z.label, pc.tmpl, digest)
+					if w.WantSample() && nt && pc.mode == modeCache && strings.HasPrefix(digest, "<") {
+						w.Sample(cur())
+					}
+				})
+				w.Add("garbage_sequence_configurations_x_windows", 1)
+			}
 		}
 		// unparseable input
 		for _, g := range garbageProgs(z) {
@@ -834,6 +866,18 @@ func replay(w *runner.W, raw json.RawMessage) {
 				}
 			}
 		}
+	case "garbage-sequence":
+		for _, z := range zonesFor(false) {
+			if z.label != c.Zone {
+				continue
+			}
+			for _, pc := range garbageSeqCfgs(z) {
+				if pc.tmpl == c.Prog && pc.a.id == c.StyleA && len(c.Pattern) >= 1 && len(c.Pattern) <= len(c.Window) {
+					runGarbageSeq(z, pc, c.Window, c.Pattern, c.Rot, c.Desc, map[string]string{}, rep)
+					return
+				}
+			}
+		}
 	case "duration":
 		seq := c.Sequence
 		if len(seq) == 0 {
@@ -878,11 +922,15 @@ func main() {
 			if tier == "thorough" {
 				pwin, ppairs = "every 67th chunk of 5 of the zone's sorted instants + the +-2 s around every change of offset", "all ordered pairs of the 17 detectable styles with the tz argument given, successor pairs with it omitted"
 			}
+			gwin, gorder := "one window of 5 consecutive enumerated seconds (the middle one of its kind in the zone's list; the kind - +-2 s around a local month start, a chunk of the sorted instants, +-2 s around a change of offset - rotates with the zone)", "the instants in increasing order for even rotations and in decreasing order for odd ones"
+			if tier == "thorough" {
+				gwin, gorder = "up to four windows of 5 consecutive enumerated seconds (the middle +-2 s around a local month start, the one a quarter into the list, the middle chunk of the sorted instants, the middle +-2 s around a change of offset if the zone has one)", "the instants in increasing and in decreasing order"
+			}
 			more := ""
 			if tier == "thorough" {
 				more = ", Europe/London, Pacific/Auckland, Asia/Kathmandu, Pacific/Apia, America/Sao_Paulo"
 			}
-			return "zones {tz omitted, utc, Etc/GMT+5, America/New_York, Europe/Berlin, Australia/Lord_Howe, Asia/Kolkata, local(=America/St_Johns via time.Local)" + more + "} from the embedded time/tzdata x unix seconds in [1970-01-01, 2100-12-31]: " + days + " at local 00:00:00, 12:00:00, 23:59:59; +-2 s around every local month start (so every quarter and year start), " + weeks + " (Monday 00:00 local) and every change of the zone's offset/abbreviation (found by bisection over every day) x {timeformat in all 23 named formats + default; time round trip of the printed text for RUBY, RFC822Z, RFC1123Z, RFC3339, RFC3339N, NGINX with and without tz; buckettime for 23 spellings of the 7 buckets; timeattr weekday, week, yearweek, quarter}; one (zone, second) = ~75 template evaluations through BuildKey. Order of evaluation: the instants of a zone are cut into blocks of 28 consecutive enumerated instants (+4 of overlap, so every +-2 s neighbourhood lies inside a block); for every block all templates are compiled from scratch and the SAME compiled expressions are evaluated on the block in increasing and then in decreasing order (every instant is checked after its predecessor and after its successor), one case = one evaluation of an instant in such a sequence; durations likewise in blocks of consecutive values, both orders; each unparseable input is evaluated right after a parseable one on the same compiled expression. Plus durationformat/duration on whole seconds " + dur + " and a sweep to +-9223372036 (5 spellings each), and lists of unparseable inputs/arguments per helper. non-trivial = no helper returned an error marker or panicked for the (zone, second) or duration case; an unparseable-input case counts when the helper was reached and answered. PARSE FAMILY (history x configuration of every helper that reads date text through smartDateParseWrapper): per zone, windows of 5 consecutive enumerated instants (" + pwin + ") x {time; buckettime with buckets s, minutes, h, day, mo, years, nanos in rotation} x format argument {omitted, \"\", cache, auto, the named formats ANSIC UNIX RUBY RFC822 RFC822Z RFC1123 RFC1123Z RFC3339 RFC3339N NGINX, custom layouts 2006-01-02 15:04:05 | 2006-01-02T15:04:05 | 2006/01/02 15:04:05 | 01/02/2006 15:04:05 | 20060102150405 | 2006-01-02 15:04 | 2006-01-02 15:04:05 -0700 | 02/Jan/2006:15:04:05 -0700 | 2006-01-02 15:04:05 MST} x tz argument {the zone's own, omitted} x text written by the reference in 19 styles (7 without offset, 8 with numeric offset, 4 with the zone abbreviation); an explicit format gets the text of that format, the detecting modes get every style dateparse has a shape for (cache/\"\"/omitted: not the abbreviation styles); auto additionally over sequences alternating two styles A,B,A,B,A (" + ppairs + "). One case = ONE compiled expression evaluated over the window forwards and then backwards (9 evaluations), each answer compared (H) with a fresh compile of the same template evaluating only that text and (R) with the reference (numeric offset: the instant to the format's precision; no offset: an instant whose calendar fields in the tz argument's zone, UTC when omitted, are the text's; abbreviation: not constrained; a detecting mode may answer the error marker, an explicit format may not); non-trivial = every answer of the long-lived expression was a value"
+			return "zones {tz omitted, utc, Etc/GMT+5, America/New_York, Europe/Berlin, Australia/Lord_Howe, Asia/Kolkata, local(=America/St_Johns via time.Local)" + more + "} from the embedded time/tzdata x unix seconds in [1970-01-01, 2100-12-31]: " + days + " at local 00:00:00, 12:00:00, 23:59:59; +-2 s around every local month start (so every quarter and year start), " + weeks + " (Monday 00:00 local) and every change of the zone's offset/abbreviation (found by bisection over every day) x {timeformat in all 23 named formats + default; time round trip of the printed text for RUBY, RFC822Z, RFC1123Z, RFC3339, RFC3339N, NGINX with and without tz; buckettime for 23 spellings of the 7 buckets; timeattr weekday, week, yearweek, quarter}; one (zone, second) = ~75 template evaluations through BuildKey. Order of evaluation: the instants of a zone are cut into blocks of 28 consecutive enumerated instants (+4 of overlap, so every +-2 s neighbourhood lies inside a block); for every block all templates are compiled from scratch and the SAME compiled expressions are evaluated on the block in increasing and then in decreasing order (every instant is checked after its predecessor and after its successor), one case = one evaluation of an instant in such a sequence; durations likewise in blocks of consecutive values, both orders; each unparseable input is evaluated right after a parseable one on the same compiled expression. Plus durationformat/duration on whole seconds " + dur + " and a sweep to +-9223372036 (5 spellings each), and lists of unparseable inputs/arguments per helper. non-trivial = no helper returned an error marker or panicked for the (zone, second) or duration case; an unparseable-input case counts when the helper was reached and answered. PARSE FAMILY (history x configuration of every helper that reads date text through smartDateParseWrapper): per zone, windows of 5 consecutive enumerated instants (" + pwin + ") x {time; buckettime with buckets s, minutes, h, day, mo, years, nanos in rotation} x format argument {omitted, \"\", cache, auto, the named formats ANSIC UNIX RUBY RFC822 RFC822Z RFC1123 RFC1123Z RFC3339 RFC3339N NGINX, custom layouts 2006-01-02 15:04:05 | 2006-01-02T15:04:05 | 2006/01/02 15:04:05 | 01/02/2006 15:04:05 | 20060102150405 | 2006-01-02 15:04 | 2006-01-02 15:04:05 -0700 | 02/Jan/2006:15:04:05 -0700 | 2006-01-02 15:04:05 MST} x tz argument {the zone's own, omitted} x text written by the reference in 19 styles (7 without offset, 8 with numeric offset, 4 with the zone abbreviation); an explicit format gets the text of that format, the detecting modes get every style dateparse has a shape for (cache/\"\"/omitted: not the abbreviation styles); auto additionally over sequences alternating two styles A,B,A,B,A (" + ppairs + "). One case = ONE compiled expression evaluated over the window forwards and then backwards (9 evaluations), each answer compared (H) with a fresh compile of the same template evaluating only that text and (R) with the reference (numeric offset: the instant to the format's precision; no offset: an instant whose calendar fields in the tz argument's zone, UTC when omitted, are the text's; abbreviation: not constrained; a detecting mode may answer the error marker, an explicit format may not); non-trivial = every answer of the long-lived expression was a value. GARBAGE-SEQUENCE FAMILY (history of the detecting modes): per zone, " + gwin + " x {time; buckettime} x format argument {omitted, \"\", cache, auto} x tz argument {the zone's own, omitted} x every text style the mode is offered in the parse family (one layout per sequence) x every word over {V = the position's instant as a valid date, G = an entry that is not a date} of length 2..5 with one to three G and at least one V (47 words: garbage before, between and after the dates) x 12 rotations of the garbage alphabet {empty string, -, n/a, one blank, 0, 404, 12345, 99999999, -1, yesterday, hello world, the position's instant in the sequence's own style with hour 25} (the j-th G of a word is entry rotation+j, so every garbage entry stands at every G position) x " + gorder + ". One case = ONE compiled expression evaluated over the sequence forwards and then backwards; every garbage entry must yield an error marker, every valid date exactly what a fresh compile of the template answers for that text alone (garbage leaves no trace) and, when it is a value, the reference's instant/fields as in the parse family; non-trivial = every valid date of the sequence yielded a value and every garbage entry an error marker"
 		},
 		Assumptions: func(string) []string {
 			return []string{
@@ -893,6 +941,7 @@ func main() {
 				"blank- and zero-padded days are both accepted in ANSIC/UNIX/NGINX; Sunday may be 0 or 7; only digit groups of buckettime/yearweek output are compared",
 				"durations are claimed for |seconds| <= 9223372036 (what a 64-bit nanosecond duration holds); which layouts cache/auto detection recognises is not part of the statement: a detecting mode may answer the error marker, but must answer what a fresh compile answers and, when it answers, the right instant",
 				"parse family: the documentation declares format omitted / \"\" / cache stateful (\"The first seen date will determine the format for all dates going forward\"), so those modes are only run over texts of one shape (same style, same field widths; entries of another shape are left out of the sequence) and never over abbreviation styles; text with a zone abbreviation is judged by history independence only (the statement speaks of numeric offsets); offset-less text is read in the tz argument's zone per the documentation (\"processed as UTC, unless explicit in the datetime itself, or overridden via a parameter\"), both instants accepted where a wall clock repeats; time.Local is pinned to America/St_Johns for tz=local",
+				"garbage-sequence family: an entry that is not a date is not a \"seen date\" (documentation of cache) and is unparseable input (statement), so it must yield the error marker and leave no trace; the garbage alphabet holds only texts that are no date in any layout - texts dateparse itself reads as a date of some layout (a unix epoch number such as 1460653945, 2020, 3.14, 1.2.3.4) count as dates of ANOTHER layout and are not used; what a caching mode answers for a date of another layout after the first seen date (error marker, or a value because it detected again) is not judged in either direction: the documentation's sentence describes the shortcut, not a promise that other layouts fail - valid dates whose shape differs from the first valid date of a sequence are left out of it",
 			}
 		},
 		Worker:         worker,
